@@ -327,6 +327,32 @@ int main(int argc, char** argv) {
         out().count("evaluations", g_eval);
         out().count("nontrivial", g_accept);
         out().count("unspecified_abstained", g_unspec);
+    } else if (mode == "wide") {
+        // objects of n members with duplicate names at positions i < j (< k): the first occurrence wins whatever the size of the
+        // object and the arrangement of the names (the sorted-object builder sorts, then drops duplicates)
+        int N = (int)a.geti("N", 40);
+        unsigned entries = (unsigned)a.geti("entries", 63);
+        long long idx = 0;
+        for (int n = 2; n <= N; ++n) for (int order = 0; order < 4; ++order) {
+            std::vector<int> perm(n);
+            for (int i = 0; i < n; ++i) perm[i] = order == 0 ? i : (order == 1 ? n - 1 - i : (order == 2 ? (i % 2 ? n - 1 - i / 2 : i / 2) : (int)((i * 7LL + 3) % n)));
+            if (order == 3 && n % 7 == 0) continue;
+            auto emit = [&](const std::vector<int>& names) {
+                if ((int)(idx++ % a.nslices) != a.slice) return;
+                std::string t = "{";
+                for (int i = 0; i < n; ++i) { char b[48]; snprintf(b, sizeof b, "%s\"k%02d\":%d", i ? "," : "", names[i], i); t += b; }
+                t += "}";
+                check_text(t, 0, entries);
+            };
+            for (int i = 0; i < n; ++i) for (int j = i + 1; j < n; ++j) {
+                std::vector<int> names(perm); names[j] = names[i]; emit(names);
+                if (j + 1 < n) { int k = n - 1; std::vector<int> n3(names); n3[k] = names[i]; emit(n3); }
+            }
+            { std::vector<int> names(n, 5); emit(names); }
+            { std::vector<int> names(perm); for (int i = n / 2; i < n; ++i) names[i] = perm[i - n / 2]; emit(names); }   // second half repeats the first
+        }
+        out().count("evaluations", g_eval);
+        out().count("nontrivial", g_accept);
     } else if (mode == "B") {
         if (a.slice == 0) run_B((int)a.geti("depth", 3));
     } else { fprintf(stderr, "usage\n"); return 2; }
